@@ -1,8 +1,107 @@
+import NaijaVerif.Model.Mem
 import NaijaVerif.Driver.Util
-/-! Family `mem` — stub (replaced by the unit that owns this family). -/
+import NaijaVerif.Driver.AstIO
+
+/-! Line protocol `mem` (C02):
+```
+d <hex src>                               -> d        differential request: the model's prediction is
+                                                      "both runs agree" (theorem c02_erasure)
+m <hex src> <ctl> <lay> <ast … to eol>    -> <ending> ev=<events>
+```
+`m`: the trace correspondence.  `<ctl>` / `<lay>` are the two oracle streams derived from the hook log
+of the real run (frame arena on), `<ast>` is the real front end's annotated AST in the one-line form
+of `Driver/AstIO.lean`.  The driver runs `Mem.run Cfg.fixed fuel ast ctl lay` and prints the model's
+event list in the canonical form that `harness/src/memtrace.rs` derives from the hook log.
+
+  ctl   comma separated (`-` = empty): `br0|br1`, `lp0|lp1`, `sc0|sc1`, `ix<k>`, `split<n>`, `call`,
+        `err:<code>:<lo>:<hi>`
+  lay   comma separated numbers (`-` = empty): the offset of every frame mark and the length of every
+        pool request, in order of occurrence
+  ending  `ok` | `rt` | `stuck:<n>` | `fuel` | `poisoned:<site>` | `badfree`
+  events  comma separated (`-` = none): br:b lp:b sc:b ix:k split:n call:n bind:n ret mark:off:kind
+        reset:off:kind stage unstage rcopy rarr:n rhost parr:n phost psz:n palloc:c:i pfall:n
+        pfree:c:i pop:n out err:code:lo:hi
+-/
 namespace NaijaVerif.Driver.MemD
+open NaijaVerif NaijaVerif.Mem NaijaVerif.Driver
+
+def fuel : Nat := 100000
+
+def parseCTok (t : String) : Option CTok :=
+  match t with
+  | "br0" => some (.br false) | "br1" => some (.br true)
+  | "lp0" => some (.lp false) | "lp1" => some (.lp true)
+  | "sc0" => some (.sc false) | "sc1" => some (.sc true)
+  | "call" => some .call
+  | _ =>
+    if t.startsWith "ix" then (t.drop 2).toString.toNat?.map CTok.ix
+    else if t.startsWith "split" then (t.drop 5).toString.toNat?.map CTok.split
+    else
+      match t.splitOn ":" with
+      | ["err", k, lo, hi] =>
+          match k.toNat?, lo.toNat?, hi.toNat? with
+          | some k, some lo, some hi => some (.err k lo hi)
+          | _, _, _ => none
+      | _ => none
+
+def parseList {α} (p : String → Option α) (s : String) : Option (List α) :=
+  if s = "-" then some [] else (s.splitOn ",").mapM p
+
+def b01 (b : Bool) : String := if b then "1" else "0"
+
+def evStr : Ev → String
+  | .br b => s!"br:{b01 b}"
+  | .lp b => s!"lp:{b01 b}"
+  | .sc b => s!"sc:{b01 b}"
+  | .ix k => s!"ix:{k}"
+  | .split n => s!"split:{n}"
+  | .call n => s!"call:{n}"
+  | .bind n => s!"bind:{n}"
+  | .ret => "ret"
+  | .mark l k => s!"mark:{l}:{k}"
+  | .reset l k => s!"reset:{l}:{k}"
+  | .stage => "stage"
+  | .unstage => "unstage"
+  | .rcopy => "rcopy"
+  | .rarr n => s!"rarr:{n}"
+  | .rhost => "rhost"
+  | .parr n => s!"parr:{n}"
+  | .phost => "phost"
+  | .psz n => s!"psz:{n}"
+  | .palloc c i => s!"palloc:{c}:{i}"
+  | .pfall n => s!"pfall:{n}"
+  | .pfree c i => s!"pfree:{c}:{i}"
+  | .pop n => s!"pop:{n}"
+  | .out => "out"
+  | .err k lo hi => s!"err:{k}:{lo}:{hi}"
+
+def endingStr : Option Stop → String
+  | none => "ok"
+  | some .rtError => "rt"
+  | some (.poisoned site) => s!"poisoned:{site}"
+  | some .badFree => "badfree"
+  | some (.stuck n) => s!"stuck:{n}"
+  | some .fuelOut => "fuel"
+
+def answer (prog : Block) (ctl : List CTok) (lay : List Nat) : String :=
+  let r := Mem.run Cfg.fixed fuel prog ctl lay
+  let evs := r.state.events.reverse.map evStr
+  let evs := if evs.isEmpty then "-" else ",".intercalate evs
+  s!"{endingStr r.stopped} ev={evs}"
+
+def step (st : Unit) (line : String) : Unit × String :=
+  match words line with
+  | "d" :: _ => (st, "d")
+  | "m" :: _src :: ctl :: lay :: ast =>
+      match parseList parseCTok ctl, parseList String.toNat? lay,
+            AstIO.readBlock (" ".intercalate ast) with
+      | some ctl, some lay, some prog => (st, answer prog ctl lay)
+      | none, _, _ => (st, "bad-op:ctl")
+      | _, none, _ => (st, "bad-op:lay")
+      | _, _, none => (st, "bad-op:ast")
+  | _ => (st, "bad-op")
 
 def main : IO Unit := do
-  IO.eprintln "family mem: not built yet"
+  loop (← IO.getStdin) (← IO.getStdout) () step
 
 end NaijaVerif.Driver.MemD
